@@ -294,6 +294,18 @@ let handle fields =
         string_of_int (int_of_nat e.e_src) ^ show_origin e.e_origin ^ ":" ^
         (if e.e_c then field_of_ustr (nm_c_name p sc e) else "-") ^ ":" ^
         (if e.e_f then field_of_ustr (nm_f_impl fsc e) else "-") ^ ":" ^ field_of_ustr (nm_f_generic e)) (expand fs))
+  | ["pycompile"; ops] ->
+      (* Python-level operations -> the capsule operations a reference-counting extension performs (PyHandles.compile) *)
+      let pop_of t = match String.split_on_char ':' t with
+        | ["PN"; k] -> PNew (nat_of_int (int_of_string k)) | ["PB"; a] -> PBorrow (nat_of_int (int_of_string a)) | ["PL"] -> PLib
+        | ["PA"; v] -> PAlias (nat_of_int (int_of_string v)) | ["PD"; v] -> PDrop (nat_of_int (int_of_string v))
+        | ["PM"; v] -> PMethod (nat_of_int (int_of_string v)) | _ -> failwith "pyop" in
+      let show_op = function
+        | New k -> "N:" ^ string_of_int (int_of_nat k) | Borrow a -> "B:" ^ string_of_int (int_of_nat a) | LibObject -> "L"
+        | Method h -> "M:" ^ string_of_int (int_of_nat h) | Destroy h -> "D:" ^ string_of_int (int_of_nat h)
+        | Release h -> "R:" ^ string_of_int (int_of_nat h) | Copy h -> "C:" ^ string_of_int (int_of_nat h) in
+      let l = if ops = "" then [] else List.map pop_of (String.split_on_char ',' ops) in
+      String.concat "," (List.map show_op (compile py_init l))
   | ["capsule"; ops] ->
       let op_of t = match String.split_on_char ':' t with
         | ["N"; k] -> New (nat_of_int (int_of_string k)) | ["B"; a] -> Borrow (nat_of_int (int_of_string a)) | ["L"] -> LibObject
